@@ -12,6 +12,7 @@ import Driver.Magnetics
 import Driver.PostInt
 import Driver.PostIntE
 import Driver.PostIntH
+import Driver.PostIntM
 import Driver.Locate
 import Driver.BHCurve
 import Driver.FileCodec
@@ -31,6 +32,7 @@ def main (args : List String) : IO UInt32 := do
   | "assemble-h" :: _ => Driver.AssembleH.run stdin stdout; return 0
   | "assemble-e" :: _ => Driver.AssembleE.run stdin stdout; return 0
   | "magnetics" :: _ => Driver.Magnetics.run stdin stdout; return 0
+  | "postint-m" :: _ => Driver.PostIntM.run stdin stdout; return 0
   | "postint-h" :: _ => Driver.PostIntH.run stdin stdout; return 0
   | "postint-e" :: _ => Driver.PostIntE.run stdin stdout; return 0
   | "postint" :: _ => Driver.PostInt.run stdin stdout; return 0
